@@ -35,22 +35,16 @@ pub proof fn lemma_ib_shr_sval(w: nat, low: nat, u: nat)
     vstd::arithmetic::div_mod::lemma_fundamental_div_mod(u as int, pl);
     vstd::arithmetic::div_mod::lemma_mod_bound(u as int, pl);
     assert(u == pl * q + r);
-    assert(0 <= q) by (nonlinear_arith) requires u == pl * q + r, 0 <= r < pl, u >= 0, pl > 0;
-    assert(q < pt) by (nonlinear_arith) requires u == pl * q + r, 0 <= r, u < pl * pt, pl > 0;
+    assert(0 <= q && q < pt) by (nonlinear_arith) requires u == pl * q + r, 0 <= r < pl, 0 <= u < pl * pt, pl > 0;
     vstd::arithmetic::div_mod::lemma_small_mod(q as nat, pt as nat);
     // sign bit of u is the sign bit of q
     assert(p2((w - 1) as nat) == pl * ht);
     assert((u >= pl * ht) == (q >= ht)) by (nonlinear_arith) requires u == pl * q + r, 0 <= r < pl, pl > 0;
     lemma_sval(w, u); lemma_sval(t, q as nat);
     let h = sval(t, q as nat);
-    if q >= ht {
-        assert(sval(w, u) == h * pl + r) by (nonlinear_arith)
-            requires sval(w, u) == u - pl * pt, h == q - pt, u == pl * q + r;
-    } else {
-        assert(sval(w, u) == h * pl + r) by (nonlinear_arith)
-            requires sval(w, u) == u, h == q, u == pl * q + r;
-    }
-    assert((h + 1) * pl == h * pl + pl) by (nonlinear_arith);
+    let c: int = if q >= ht { 1 } else { 0 };
+    assert(sval(w, u) == h * pl + r && (h + 1) * pl == h * pl + pl) by (nonlinear_arith)
+        requires sval(w, u) == u - c * (pl * pt), h == q - c * pt, u == pl * q + r, c == 0 || c == 1;
 }
 
 /// the arithmetic shift is monotone
@@ -121,10 +115,8 @@ pub proof fn lemma_ib_trunc_eq_close(t: nat, x: int, y: int)
     let (qx, qy) = (x / (p2(t) as int), y / (p2(t) as int));
     let p = p2(t) as int;
     let r = trunc(t, x) as int;
-    assert(x - y == (qx - qy) * p) by (nonlinear_arith)
-        requires x == qx * p + r, y == qy * p + r;
     assert(qx == qy) by (nonlinear_arith)
-        requires x - y == (qx - qy) * p, -p < x - y < p, p > 0;
+        requires x == qx * p + r, y == qy * p + r, -p < x - y < p, p > 0;
 }
 
 /// trunc(t, a) == trunc(t, b)  ==>  trunc(t, a + k) == trunc(t, b + k)
@@ -265,20 +257,17 @@ pub proof fn lemma_ib_adjust_int(s: int, e: int, rem: int, m: int, v: int)
     vstd::arithmetic::div_mod::lemma_fundamental_div_mod(e - rem, m);
     vstd::arithmetic::div_mod::lemma_mod_bound(rem - s, m);
     vstd::arithmetic::div_mod::lemma_mod_bound(e - rem, m);
-    assert(s1 - rem == m * (-q1)) by (nonlinear_arith) requires rem - s == m * q1 + d1, s1 == s + d1;
-    assert(e1 - rem == m * q2) by (nonlinear_arith) requires e - rem == m * q2 + d2, e1 == e - d2;
-    assert(e1 - s1 == m * (q2 + q1)) by (nonlinear_arith) requires s1 - rem == m * (-q1), e1 - rem == m * q2;
+    assert(s1 - rem == m * (-q1) && e1 - rem == m * q2 && e1 - s1 == m * (q2 + q1)) by (nonlinear_arith)
+        requires rem - s == m * q1 + d1, s1 == s + d1, e - rem == m * q2 + d2, e1 == e - d2;
     lemma_divides_mul(m, -q1); lemma_divides_mul(m, q2); lemma_divides_mul(m, q2 + q1);
     if s <= v <= e && (v - rem) % m == 0 {
         lemma_divides_witness(m, v - rem);
         let k = (v - rem) / m;
-        assert(v - s1 == m * (k + q1)) by (nonlinear_arith) requires v - rem == m * k, s1 - rem == m * (-q1);
+        assert(v - s1 == m * (k + q1) && e1 - v == m * (q2 - k)) by (nonlinear_arith)
+            requires v - rem == m * k, s1 - rem == m * (-q1), e1 - rem == m * q2;
         lemma_divides_mul(m, k + q1);
-        assert(k + q1 >= 0) by (nonlinear_arith) requires m * (k + q1) > -m, m > 0;
-        assert(m * (k + q1) >= 0) by (nonlinear_arith) requires k + q1 >= 0, m > 0;
-        assert(e1 - v == m * (q2 - k)) by (nonlinear_arith) requires v - rem == m * k, e1 - rem == m * q2;
-        assert(q2 - k >= 0) by (nonlinear_arith) requires m * (q2 - k) > -m, m > 0;
-        assert(m * (q2 - k) >= 0) by (nonlinear_arith) requires q2 - k >= 0, m > 0;
+        assert(m * (k + q1) >= 0 && m * (q2 - k) >= 0) by (nonlinear_arith)
+            requires m * (k + q1) > -m, m * (q2 - k) > -m, m > 0;
     }
     if s1 <= v <= e1 && (v - s1) % m == 0 {
         lemma_divides_witness(m, v - s1);
@@ -382,10 +371,8 @@ pub proof fn lemma_ib_tz(x: u64)
     assert(h * p <= x) by (nonlinear_arith) requires x as int == p * (h as int) + (x as int) % p, 0 <= (x as int) % p;
     vstd::bits::lemma_u64_shl_is_mul(h, k);
     assert(x == h * p);
-    assert(x as int == p * (h as int)) by (nonlinear_arith) requires x == h * p;
+    assert(x as int == p * (h as int) && h != 0 && p <= x) by (nonlinear_arith) requires x == h * p, x != 0, p > 0, h >= 0;
     vstd::arithmetic::div_mod::lemma_fundamental_div_mod_converse(x as int, p, h as int, 0);
-    assert(h != 0) by (nonlinear_arith) requires x == h * p, x != 0;
-    assert(p <= x) by (nonlinear_arith) requires x == h * p, h >= 1, p > 0;
     vstd::bits::lemma_u64_shl_is_mul(1, k);
     if k >= 1 {
         lemma_p2(k as nat);
@@ -406,8 +393,7 @@ pub proof fn lemma_ib_divisor_le(d: int, x: int)
 {
     lemma_divides_witness(d, x);
     let q = x / d;
-    assert(q >= 1) by (nonlinear_arith) requires x == d * q, x > 0, d > 0;
-    assert(d * q >= d) by (nonlinear_arith) requires q >= 1, d > 0;
+    assert(d <= x) by (nonlinear_arith) requires x == d * q, x > 0, d > 0;
 }
 
 /// 2^k <= x < 2^w  ==>  k < w and 2^k divides 2^w
@@ -602,8 +588,8 @@ pub proof fn lemma_ib_piece_mixed(a: Interval, b: Interval)
         lemma_ib_concat_sval(x, y);
         let v = ib_concat(x, y);
         let xs = x.s();
-        assert(a.start.s() * pb <= xs * pb) by (nonlinear_arith) requires a.start.s() <= xs, pb > 0;
-        assert(xs * pb <= a.end.s() * pb) by (nonlinear_arith) requires xs <= a.end.s(), pb > 0;
+        assert(a.start.s() * pb <= xs * pb && xs * pb <= a.end.s() * pb) by (nonlinear_arith)
+            requires a.start.s() <= xs <= a.end.s(), pb > 0;
         // residue class
         lemma_sval(wb, y.u@);
         let c: int = if y.s() < 0 { 1 } else { 0 };
@@ -620,10 +606,39 @@ pub proof fn lemma_ib_piece_mixed(a: Interval, b: Interval)
     assert(a.gamma(a.start) && b.gamma(b.start));
 }
 
+/// k <= leading_zeros(x), k < 64: x << k does not lose bits
+pub proof fn lemma_ib_lz_shift(x: u64, k: nat)
+    requires k < 64, vstd::std_specs::bits::u64_leading_zeros(x) >= k
+    ensures x * p2(k) <= u64::MAX,
+{
+    vstd::std_specs::bits::axiom_u64_leading_zeros(x);
+    lemma_p2_consts();
+    if k >= 1 {
+        let lz = vstd::std_specs::bits::u64_leading_zeros(x) as u64;
+        let kk = k as u64;
+        assert(x >> sub(64u64, kk) == 0) by (bit_vector)
+            requires lz <= 64, kk <= lz, 1 <= kk < 64, x >> sub(64u64, lz) == 0;
+        let sh = (64 - kk) as u64;
+        vstd::bits::lemma_u64_shr_is_div(x, sh);
+        let ph = p2(sh as nat) as int;
+        lemma_p2(sh as nat);
+        lemma_p2_mono(k, 64);                      // p2(64) == p2(k) * p2(64 - k)
+        vstd::arithmetic::div_mod::lemma_fundamental_div_mod(x as int, ph);
+        vstd::arithmetic::div_mod::lemma_mod_bound(x as int, ph);
+        assert(x < ph);
+        assert(x * p2(k) < p2(k) * ph) by (nonlinear_arith) requires x < ph, p2(k) > 0, x >= 0;
+    } else {
+        assert(x * p2(0) == x) by (nonlinear_arith) requires p2(0) == 1;
+    }
+}
+
 /// the stride `piece` computes when the bounds of `other` have the same sign
 pub open spec fn ib_piece_stride(a: Interval, b: Interval) -> u64 {
     if a.stride == 0 { b.stride }
-    else if b.stride == 0 { (a.stride * p2(b.w())) as u64 }
+    else if b.stride == 0 {
+        // shifted stride if it fits into 64 bits, else the fallback 1
+        if b.w() < 64 && vstd::std_specs::bits::u64_leading_zeros(a.stride) >= b.w() { (a.stride * p2(b.w())) as u64 } else { 1 }
+    }
     else { p2(vstd::std_specs::bits::u64_trailing_zeros(b.stride) as nat) as u64 }
 }
 pub open spec fn ib_piece_same(a: Interval, b: Interval) -> Interval {
@@ -632,7 +647,6 @@ pub open spec fn ib_piece_same(a: Interval, b: Interval) -> Interval {
 
 pub proof fn lemma_ib_piece_same(a: Interval, b: Interval)
     requires a.inv(), b.inv(), a.w() + b.w() <= MAXW(), !(b.start.sign() && !b.end.sign()),
-             (a.stride != 0 && b.stride == 0) ==> a.stride * p2(b.w()) <= u64::MAX,
     ensures ({
         let wb = b.w();
         let k = vstd::std_specs::bits::u64_trailing_zeros(b.stride) as nat;
@@ -640,7 +654,8 @@ pub proof fn lemma_ib_piece_same(a: Interval, b: Interval)
         &&& r.start.wf() && r.end.wf() && r.inv() && r.w() == a.w() + wb
         &&& forall|x: Bitvector, y: Bitvector| #![trigger a.gamma(x), b.gamma(y)] a.gamma(x) && b.gamma(y) ==> r.gamma(ib_concat(x, y))
         &&& (b.stride != 0 ==> 0 <= k < 64 && (1u64 << (k as u32)) == p2(k))
-        &&& (a.stride != 0 && b.stride == 0 ==> wb < 64 && (a.stride << (wb as u64)) == a.stride * p2(wb))
+        &&& (a.stride != 0 && b.stride == 0 && wb < 64 && vstd::std_specs::bits::u64_leading_zeros(a.stride) >= wb
+                ==> a.stride * p2(wb) <= u64::MAX && (a.stride << (wb as u64)) == a.stride * p2(wb))
     }),
 {
     let (wa, wb) = (a.w(), b.w());
@@ -666,13 +681,12 @@ pub proof fn lemma_ib_piece_same(a: Interval, b: Interval)
     // the stride divides 2^wb * (multiples of a.stride) and multiples of b.stride
     if a.stride == 0 {
     } else if b.stride == 0 {
-        if wb >= 64 {
-            lemma_p2_mono(64, wb);
-            assert(sa * pb >= pb) by (nonlinear_arith) requires sa >= 1, pb > 0;
+        if wb < 64 && vstd::std_specs::bits::u64_leading_zeros(a.stride) >= wb {
+            lemma_ib_lz_shift(a.stride, wb);
+            vstd::bits::lemma_u64_shl_is_mul(a.stride, wb as u64);
+            assert(sr == sa * pb);
+            assert(sr > 0) by (nonlinear_arith) requires sr == sa * pb, sa > 0, pb > 0;
         }
-        vstd::bits::lemma_u64_shl_is_mul(a.stride, wb as u64);
-        assert(sr == sa * pb);
-        assert(sr > 0) by (nonlinear_arith) requires sr == sa * pb, sa > 0, pb > 0;
     } else {
         lemma_ib_tz(b.stride);
         lemma_ib_divisor_le(sb, beu - bsu);
@@ -682,10 +696,14 @@ pub proof fn lemma_ib_piece_same(a: Interval, b: Interval)
         if a.stride == 0 {
             assert(ds * pb == 0) by (nonlinear_arith) requires ds == 0;
         } else if b.stride == 0 {
-            lemma_divides_witness(sa, ds);
-            let j = ds / sa;
-            assert(ds * pb == (sa * pb) * j) by (nonlinear_arith) requires ds == sa * j;
-            lemma_divides_mul(sr, j);
+            if sr == 1 {
+                assert((ds * pb + du) % 1 == 0);
+            } else {
+                lemma_divides_witness(sa, ds);
+                let j = ds / sa;
+                assert(ds * pb == (sa * pb) * j) by (nonlinear_arith) requires ds == sa * j;
+                lemma_divides_mul(sr, j);
+            }
         } else {
             lemma_divides_witness(sr, pb);
             let qp = pb / sr;
